@@ -342,6 +342,20 @@ func (eapAkaPrime *EapAkaPrime) Unmarshal(rawData []byte) error {
 				}
 				return errors.Wrapf(err, "EAP-AKA' Unmarshal(): read %s attribute/value failed", attr.attrType)
 			}
+		default:
+			// Other attributes (e.g. AT_CHECKCODE): two reserved bytes and a value, delimited by the length field
+			if attr.length == 0 {
+				return errors.Errorf("EAP-AKA' Unmarshal(): %s attribute length must not be 0", attr.attrType)
+			}
+			reserved := make([]byte, EapAkaAttrReservedLen)
+			if _, err = io.ReadFull(bufReader, reserved); err != nil {
+				return errors.Wrapf(err, "EAP-AKA' Unmarshal(): read %s attribute/reserved failed", attr.attrType)
+			}
+			attr.reserved = binary.BigEndian.Uint16(reserved)
+			attr.value = make([]byte, 4*int(attr.length)-EapAkaAttrTypeLen-EapAkaAttrLengthLen-EapAkaAttrReservedLen)
+			if _, err = io.ReadFull(bufReader, attr.value); err != nil {
+				return errors.Wrapf(err, "EAP-AKA' Unmarshal(): read %s attribute/value failed", attr.attrType)
+			}
 		}
 
 		// Set attribute
